@@ -6,6 +6,9 @@ package main
 
 import (
 	"fmt"
+	"math/rand/v2"
+
+	"github.com/miekg/dns"
 
 	"github.com/semihalev/sdns/zzverif/vlib"
 )
@@ -15,6 +18,9 @@ func genScenarioA(r *vlib.Run, idx int, nOps int) *Scenario {
 	kind := []int{1, 1, 1, 1, 1, 0, 0, 2, 2, 1}[idx%10]
 	sc := &Scenario{Part: "A", Index: idx, Policy: genPolicy(rng, kind)}
 	sc.Policy.Prefetch = 0
+	if idx%10 == 4 || idx%10 == 6 {
+		sc.Policy.CookieLimit = 6000
+	}
 	m := newModel(sc.Policy)
 	var names []string
 	for i := 0; i < nOps; i++ {
@@ -27,6 +33,14 @@ func genScenarioA(r *vlib.Run, idx int, nOps int) *Scenario {
 		}
 		op := Op{Kind: "q", Client: genClient(rng, sc.Policy), Entry: entry, Proto: proto}
 		op.Q = genQuery(rng, m, name, entry, 75)
+		if sc.Policy.CookieLimit > 0 && i%4 == 3 && len(sc.Ops) > 0 {
+			// a returning client whose cookie the limiter does not know:
+			// over UDP that is answered BADCOOKIE ahead of edns
+			prev := &sc.Ops[len(sc.Ops)-1]
+			withCookieAndSubnet(rng, m, &prev.Q, prev.Entry)
+			op.Client, op.Proto = prev.Client, "udp"
+			withCookieAndSubnet(rng, m, &op.Q, entry)
+		}
 		sc.Ops = append(sc.Ops, op)
 	}
 	return sc
@@ -40,4 +54,27 @@ func runPartA(r *vlib.Run) {
 		r.Progress("part A scenario %d/%d", i+1, nSc)
 	}
 	r.Note("part_a", fmt.Sprintf("%d scenarios x %d exchanges", nSc, nOps))
+}
+
+// withCookieAndSubnet makes q a version-0 EDNS query carrying a fresh client
+// cookie and a subnet option.
+func withCookieAndSubnet(rng *rand.Rand, m *model, q *QSpec, entry string) {
+	q.EDNS, q.Version = true, 0
+	if q.UDPSize == 0 {
+		q.UDPSize = 1232
+	}
+	var opts []OptSpec
+	hasECS := false
+	for _, o := range q.Opts {
+		if o.Code == dns.EDNS0COOKIE {
+			continue
+		}
+		hasECS = hasECS || o.Code == dns.EDNS0SUBNET
+		opts = append(opts, o)
+	}
+	opts = append(opts, optHex(dns.EDNS0COOKIE, randBytes(rng, 8)))
+	if !hasECS {
+		opts = append(opts, optHex(dns.EDNS0SUBNET, wellFormedSubnet(rng, m)))
+	}
+	q.Opts = opts
 }
